@@ -118,6 +118,48 @@ theorem stateAt_spec {n : Node} (g : C22.Good n) (pt : Pt) :
     have : truth (bootSwap n d) = n.live := by show truth (write n .noop) = n.live; rw [t1, q.live]; rfl
     rw [this]; rfl
 
+/-- the generic form: from ANY good state (not only one reached without crashes) -/
+theorem restart_exact_good {n : Node} (g : C22.Good n) (pt : Pt) :
+    (openNode (crash (stateAt n pt))).live = expected n.live pt ∧ C22.Good (openNode (crash (stateAt n pt))) := by
+  obtain ⟨hd, hp, ht⟩ := stateAt_spec g pt
+  obtain ⟨hl, _, hd', hq', _⟩ := open_truth (durInv_crash hd) (by show (stateAt n pt).peersFile = none; exact hp)
+  exact ⟨by rw [hl, truth_crash, ht], hd', hq'⟩
+
+/-- an epoch of a node's life: operations, then a crash at some point of one more, then reopen -/
+def epochs (n : Node) : List (List C22.Op × Pt) → Node
+  | [] => n
+  | (ops, pt) :: rest => epochs (openNode (crash (stateAt (C22.run n ops) pt))) rest
+
+/-- what clients were told, epoch by epoch -/
+def epochsDb (d : Db) : List (List C22.Op × Pt) → Db
+  | [] => d
+  | (ops, pt) :: rest => epochsDb (expected (ops.foldl C22.effect d) pt) rest
+
+/-- **crashes_repeat**: mid-operation crashes may happen ANY number of times in a history, each
+followed by more operations: after every reopen the node holds exactly the expected database
+and is a good state again -/
+theorem crashes_repeat {n : Node} (g : C22.Good n) (es : List (List C22.Op × Pt)) :
+    (epochs n es).live = epochsDb n.live es ∧ C22.Good (epochs n es) := by
+  induction es generalizing n with
+  | nil => exact ⟨rfl, g⟩
+  | cons e rest ih =>
+    obtain ⟨ops, pt⟩ := e
+    have g1 := C22.good_run g ops
+    obtain ⟨hl, g2⟩ := restart_exact_good g1 pt
+    obtain ⟨a, b⟩ := ih g2
+    refine ⟨?_, b⟩
+    show (epochs (openNode (crash (stateAt (C22.run n ops) pt))) rest).live = _
+    rw [a, hl, C22.live_run g ops]; rfl
+
+/-- **minority_restart_catches_up**: a node that crashed at any point and reopened, then applies
+the entries the rest of the cluster has meanwhile committed (any schedule `more1` with the same
+data operations as the cluster's `more2`), holds what the cluster holds -/
+theorem minority_restart_catches_up {n : Node} (g : C22.Good n) (pt : Pt) (more1 more2 : List C22.Op)
+    (h : C22.dataOps more1 = C22.dataOps more2) :
+    (C22.run (openNode (crash (stateAt n pt))) more1).live = more2.foldl C22.effect (expected n.live pt) := by
+  obtain ⟨hl, g2⟩ := restart_exact_good g pt
+  rw [C22.live_run g2, hl, C22.foldl_effect_data more1, C22.foldl_effect_data more2, h]
+
 /-- **restart_exact.** For EVERY history and EVERY crash point, the node that reopens serves
 exactly the database the durable state stands for — which is the state it had applied
 before the interrupted operation, or the state after it when that operation's effect had
@@ -302,6 +344,11 @@ theorem restart_exact_after_install_crash (hist : List C22.Op) (hist' : List Cmd
   show truth (partialOpen _ k) = _
   rw [b]; rfl
 
+/-- `InstallPre` is satisfiable in the situation of the witness below -/
+example : InstallPre (C22.run {} [.write (.exec false [.put 1 1]), .snapshot 0])
+    ((C22.run {} [.write (.exec false [.put 1 1]), .snapshot 0]).hist ++ [.exec false [.put 2 2]]) 2 :=
+  ⟨by decide, by decide⟩
+
 /-- the index in the marker is needed: the same crash with a marker that claims the new index
 (= a marker without the check) comes up on the fast path with the OLD file under the NEW
 snapshot's index, and the entries in between are never applied -/
@@ -336,6 +383,34 @@ theorem fingerprint_before_install_witness :
     let n := C22.run {} [.write (.exec false [.put 1 0]), .snapshot 0, .write (.exec false [.add 1 1])]
     let bad := snapFingerprint (snapPersist (snapCheckpoint n))     -- fingerprint, then crash before install
     n.live = [(1, 1)] ∧ (openNode (crash bad)).live = [(1, 2)] := by decide
+
+/-- the restart statement for the UNREPAIRED order (fingerprint written before the install), over
+all histories … -/
+def restart_exact_with_early_fingerprint_full : Prop :=
+  ∀ hist : List C22.Op,
+    (openNode (crash (snapFingerprint (snapPersist (snapCheckpoint (C22.run {} hist)))))).live = (C22.run {} hist).live
+
+/-- … is false -/
+theorem not_restart_exact_with_early_fingerprint_full : ¬ restart_exact_with_early_fingerprint_full := by
+  intro h
+  have := h [.write (.exec false [.put 1 0]), .snapshot 0, .write (.exec false [.add 1 1])]
+  revert this
+  decide
+
+/-- the fast path WITHOUT the comparison of the marker's snapshot index, over all histories and
+installs: "a crash after the sink closed restarts with the received database" … -/
+def install_crash_exact_ignoring_marker_index_full : Prop :=
+  ∀ (hist : List C22.Op) (hist' : List Cmd) (j : Nat) (d : Db), InstallPre (C22.run {} hist) hist' j →
+    (openNode (crash { installSinkClosed (C22.run {} hist) hist' j d with fpIdx := j })).live = replay d (hist'.drop j)
+
+/-- … is false: the index in the marker is what makes `restart_exact_after_install_crash` true -/
+theorem not_install_crash_exact_ignoring_marker_index_full : ¬ install_crash_exact_ignoring_marker_index_full := by
+  intro h
+  have := h [.write (.exec false [.put 1 1]), .snapshot 0]
+    ((C22.run {} [.write (.exec false [.put 1 1]), .snapshot 0]).hist ++ [.exec false [.put 2 2]]) 2 [(1, 1), (2, 2)]
+    ⟨by decide, by decide⟩
+  revert this
+  decide
 
 /-- **fingerprint_removed_before_swap**: in `fsmRestore`'s step list, no state with the new
 database file in place carries a fingerprint written for the old one: the fingerprint is
